@@ -560,6 +560,20 @@ class _Lookup:
                 return default
 
             return Builtin(f"{self.which}.get", get)
+        if name in ("keys", "values", "items") and self.which in ("origins", "destinations"):
+            net, which = self.net, self.which
+            base = net.origins_seq if which == "origins" else net.dests_seq
+            nodef = node_of_origin if which == "origins" else node_of_dest
+
+            def view(it, a, k, name=name):
+                seq = base()
+                if name == "keys":
+                    return seq
+                if name == "values":
+                    return SSeq(seq.n, lambda j: net.node(nodef(seq.elem(j).term)), f"{which}.values()")
+                return SSeq(seq.n, lambda j: (seq.elem(j), net.node(nodef(seq.elem(j).term))), f"{which}.items()")
+
+            return Builtin(f"{which}.{name}", view)
         raise Unsupported(f"{self.which}.{name} is not part of the ghost view")
 
     def pyvc_iter(self, interp):
